@@ -107,10 +107,11 @@ def build(posonly, pos, va, kwonly, kw, nlocals, with_self, selfname="self"):
     """-> code object for def f(<self,> p0.., /, q0.., *args, k0.., **kws): x0 = 1 .."""
     key = (posonly, pos, va, kwonly, kw, nlocals, with_self, selfname)
     if key not in _CODE:
-        ps = ([selfname] if with_self else []) + ["p%d" % i for i in range(posonly)]
+        # (the names are NOT in alphabetical order: the declared order is what every rendering must follow)
+        ps = ([selfname] if with_self else []) + ["p%d" % (posonly - 1 - i) for i in range(posonly)]
         if posonly or (with_self and False):
             ps.append("/")
-        ps += ["q%d" % i for i in range(pos)]
+        ps += ["%sq%d" % ("zyxwvutsrponm"[i % 13], i) for i in range(pos)]
         if va:
             ps.append("*args")
         elif kwonly:
